@@ -108,8 +108,12 @@ BAD_DATES = ["'2020-02-30'", "'2020-13-01'", "'2021-02-29'", "'2020-01-01 25:00'
              # no date part: these go to the English date parser (chrono-english), which used to panic on them
              "'99:99:99'", "'apr 1 25:61'", "'10.70'", "'12:00:61'", "'next fri 30:00'", "'12345.6'", "'é日本語の日付'", "'1 jan 2020 24:00'",
              # digits that are not ASCII digits (the date pattern used to accept them, the number parser does not)
-             "'2020-0\u0661-01'", "'\u0662\u0660\u0662\u0660-01-01'"]
-BAD_BOOLS = ["maybe", "2", "'tru'", "10", "oui", "-1", "truee"]
+             "'2020-0\u0661-01'", "'\u0662\u0660\u0662\u0660-01-01'", "''", "' '"]
+BAD_BOOLS = ["maybe", "2", "'tru'", "10", "oui", "-1", "truee", "''", "' '", "1.0", "01"]
+# literals that are no number at all, on a numeric column
+BAD_NUMS = ["'root'", "'abc'", "''", "' '", "0x10", "'1_000'", "1zb", "1x"]
+NUM_COLS = ["size", "uid", "gid", "hardlinks", "inode", "length(name)", "size + 1"]
+NUM_OPS = ["=", "!=", ">", ">=", "<", "<=", "===", "!==", "eq", "ne", "gt", "lte"]
 DATE_OPS = ["=", "!=", ">", ">=", "<", "<=", "===", "!==", "eq", "ne", "gt", "lte"]
 
 
@@ -177,11 +181,13 @@ def function_calls(draw):
 
 @st.composite
 def ill_typed(draw):
-    kind = draw(st.sampled_from(["regex", "date", "bool"]))
+    kind = draw(st.sampled_from(["regex", "date", "bool", "num"]))
     if kind == "regex":
         col = draw(st.sampled_from(["name", "path", "ext", "dir", "mode", "lower(name)"]))
         op = draw(st.sampled_from(["=~", "~=", "regexp", "rx", "!=~", "!~="]))
         atom = "%s %s %s" % (col, op, draw(st.sampled_from(BAD_REGEX)))
+    elif kind == "num":
+        atom = "%s %s %s" % (draw(st.sampled_from(NUM_COLS)), draw(st.sampled_from(NUM_OPS)), draw(st.sampled_from(BAD_NUMS)))
     elif kind == "date":
         col = draw(st.sampled_from(["modified", "accessed", "created"]))
         atom = "%s %s %s" % (col, draw(st.sampled_from(DATE_OPS)), draw(st.sampled_from(BAD_DATES)))
@@ -338,6 +344,10 @@ def enumerate_cases(tier):
         for op in ["=", "!=", "==", "ne", "eq"]:
             for lit in BAD_BOOLS:
                 cases.append({"cls": "iv:bool", "argv": ["select name from . where %s %s %s" % (col, op, lit)], "expect2": True})
+    for col in NUM_COLS:
+        for op in NUM_OPS:
+            for lit in BAD_NUMS:
+                cases.append({"cls": "iv:num", "argv": ["select name from . where %s %s %s" % (col, op, lit)], "expect2": True})
     for col in ["size", "name", "modified", "is_dir", "ext"]:
         for op in ODD_OPS:
             for lit in ["3", "a", "true"]:
